@@ -19,7 +19,10 @@ This check:
      -> tiling -> ramp -> ifft2 -> /W) is run in the model from the raw stack; the index-map
      model is compared exactly with `_return_bf_context` and with the map observed through the
      public API on random mask pairs.
-The physics of the kernel factors (gamma_factor etc.) is NOT verified: they are inputs."""
+Round 3 (harness/ext_C04.py, audit in harness/props/C04.audit.md): the kernel factors are modelled over an abstract
+character / aperture (coq/model/C04_Gamma_Model.v) and gamma_factor is tied to the proved closed form by float64
+recomputation of every call of real runs; parallax for all 25 aberration coefficients; crop_bf_mask=True; mask
+representations; corrected_bf; per-image DC; the batch schedule against SimpleBatcher; read/write sets of reconstruct."""
 from __future__ import annotations
 
 import json
@@ -1115,21 +1118,33 @@ def run(ctx: Ctx):
         "sizes 1..num_bf (counted as evaluations); linearity with random real coefficients; 2-3 complementary "
         "sub-masks; analytic parallax for zero / defocus / defocus+astigmatism / aliases and integer-pixel shifts; "
         "model runs on small grids (<= 5x6 scan, <= 7 BF pixels, upsampling 1-2) for every kernel at batch sizes "
-        "1,2,n-1,n; random mask pairs for the index map.  A case is distinct by its full parameter set, "
+        "1,2,n-1,n; random mask pairs for the index map.  Round-3 extension (harness/ext_C04.py): parallax with all 25 "
+        "aberration coefficients and aliases (six families: coma, coma aliases, C23+C12, Cs, third order mixed, fourth/"
+        "fifth order) at upsampling 1..3 with and without filters; stacks with per-image offsets; objects built with "
+        "crop_bf_mask=True (BF disc inside a 7..11 x 7..11 detector or up to the edge, padding 0..2), bf_mask in 7 "
+        "representations, max_batch_size > num_bf, corrected_bf; attribute read/write sets over 3-call sequences; "
+        "gamma_factor calls of ssb/obf/mf runs (incl. higher-order aberrations); SimpleBatcher for all n <= 12, b <= n+2 "
+        "and random n <= 60; iCoM from the raw stack through the model.  A case is distinct by its full parameter set, "
         "non-trivial when it has more than 2 BF pixels / a proper sub-mask")
     ctx.assumptions += [
         "torch.fft.fft2/ifft2 compute the DFT (the model's naive DFT with numpy twiddle tables is compared with them to 1e-4)",
-        "the per-pixel kernel factors (gamma_factor, parallax ramp, iCoM operator), |gamma|^2, aperture weights, Butterworth "
-        "envelope and the norm function are INPUTS of the theorems: their physics is not verified",
-        "the geometric shift of the parallax oracle is the harness's own closed form for defocus + two-fold astigmatism "
-        "(gradient of the aberration surface w.r.t. the scattering angle in the rotated detector frame)",
+        "the per-pixel kernel factors are INPUTS of the skeleton theorems; the C04_gamma_* / *_hermitian theorems are about "
+        "gamma_factor and the ramp over an ABSTRACT character E, aperture A and surface chi: that torch's exp(-i .), "
+        "soft_aperture and aberration_surface satisfy the assumed laws (character, real even aperture, even surface for "
+        "even-order coefficients) is validated numerically only (float64 recomputation of every gamma_factor call)",
+        "the geometric shift of the parallax oracles is the harness's own gradient of the aberration surface w.r.t. the "
+        "scattering angle in the rotated detector frame (closed form for defocus + astigmatism, generic formula for all 25 "
+        "coefficients), cross-checked with aberration_surface_cartesian_gradients evaluated in float64",
+        "SimpleBatcher(n, b, shuffle=False) is compared exactly with the model's schedule on sampled (n, b), not proved (C09 "
+        "models the batcher)",
+        "the attribute probe sees instance attributes only (module- or class-level caches are covered by the history oracle)",
         "torch CPU kernels are deterministic functions of their inputs",
     ]
     ctx.cov["trusted_base"] += [
         "Coq 8.16.1 kernel incl. vm_compute (used to run the model); no native_compute",
-        "hand-written model coq/model/C04_Model.v tied to /repo by the correspondence runs of this check",
+        "hand-written models coq/model/C04_Model.v, coq/model/C04_Gamma_Model.v tied to /repo by the correspondence runs of this check",
         "lib/DFT.v, lib/DFT2.v (proved), lib/DFT_Float.v (binary64 instance used only to RUN the model)",
-        "harness/props/C04.py (generators, numpy reference formulas, Python->Coq printers), harness/common.py",
+        "harness/props/C04.py, harness/ext_C04.py (generators, numpy reference formulas, attribute probe, Python->Coq printers), harness/common.py",
         "PrimFloat primitives (binary64) for the executable instance",
     ]
     ctx.proofs_or_violation()
